@@ -126,7 +126,23 @@ def scenario(rng, small):
                          only_at_stop=(inwin == 0 and any(((start - r["t"]) if rev else (r["t"] - start)) == nsteps * dt for r in rows))))
 
 
-DRIVERS = {"release": ("harness.checks.c04", "release_trace", "ReleaseTrace", FAMILY)}
+def from_model(scn, rng):
+    """materialise a (window, direction, mode, table) chosen by TLC (MC_Release / GEN configuration): one tick = one model step"""
+    dt = rng.choice([30, 60])
+    base = rng.choice([0, 86400 * 31])
+    c = scn["cfg"]
+    rows = []
+    for r in scn["table"]:
+        rows.append(dict(t=base + r["t"] * dt, mult=r["mult"],
+                         pay=dict(id=r["id"], x=rng.randrange(1 * QX, 9 * QX), y=rng.randrange(1 * QX, 7 * QX), z=rng.randrange(0, 50 * QZ), wt=rng.randrange(0, 40))))
+    cols = ["mult", "release_time", "X", "Y", "Z", "farm", "wt"]
+    return dict(cfg=dict(start=base + c["start"] * dt, stop=base + c["stop"] * dt, dt=dt, rev=c["rev"], cont=c["cont"], freq=c["freq"] * dt), table=rows,
+                cols=cols, header=True, sep=" ", tfmt="full", freqform=c["freq"] * dt,
+                cls=dict(rev=c["rev"], cont=c["cont"], multi_time=len({r["t"] for r in rows}) > 1, rows_in_window=not scn["refused"], only_at_stop=False, from_model=True))
+
+
+DRIVERS = {"release": ("harness.checks.c04", "release_trace", "ReleaseTrace", FAMILY),
+           "release-from-model": ("harness.checks.c04", "release_trace", "ReleaseTrace", FAMILY)}
 
 
 def scenarios(tier, seed):
@@ -142,7 +158,22 @@ def run(tier, seed, family=FAMILY, pid="C04"):
     scs = scenarios(tier, seed)
     traces = pmap("harness.checks.c04", "release_trace", scs)
     rep.add_tv("release", "ReleaseTrace", scs, traces, tlc.validate_traces("ReleaseTrace", traces), family=family)
-    rep.nontrivial = len({repr((s["cfg"], s["table"])) for s in scs if s["cls"]["rows_in_window"]})
+    # spec -> code: every small (window, direction, mode, table) enumerated by TLC on the release model
+    import json
+    import re
+    gen = tlc.run_tlc("MC_Release", "GEN_Release.cfg", workers=8, timeout=1200)
+    if gen.error or gen.violated:
+        raise tlc.MachineryError("GEN_Release failed: " + (gen.error or str(gen.violated)))
+    scns = [json.loads(json.loads(x)) for x in re.findall(r'<<"SCN", ("(?:[^"\\]|\\.)*")>>', gen.out)]
+    if len(scns) < 10000:
+        raise tlc.MachineryError(f"too few release scenarios generated by TLC: {len(scns)}")
+    rng = random.Random(seed + 5)
+    pick = scns if tier == "thorough" else rng.sample(scns, 3000)
+    ms = [from_model(x, rng) for x in pick]
+    mt = pmap("harness.checks.c04", "release_trace", ms)
+    rep.add_tv("release-from-model", "ReleaseTrace", ms, mt, tlc.validate_traces("ReleaseTrace", mt), family=family)
+    rep.extra["scenarios_generated_by_tlc"] = len(scns)
+    rep.nontrivial = len({repr((s["cfg"], s["table"])) for s in scs + ms if s["cls"]["rows_in_window"]})
     rep.rule = ("random release set-ups (window, direction, discrete/continuous, frequency, 1-4 file times x 1-3 rows, mult 0-3, "
                 "column order, header or names, separators, time spellings); non-trivial = distinct (cfg, table) with a row inside the window")
     rep.assumptions = ["release tables sorted in simulation order, times on the model time grid, continuous file times on the tick grid (C04's quantifier)",
